@@ -375,7 +375,8 @@ class VisaPVVPinBlockMixin(abc.ABC):
 
 def _get_tsp(card_number, key_table_index, pin):
     rightmost_11 = card_number[-12:-1]
-    return f'{rightmost_11}{key_table_index}{pin}'
+    # the Visa PVV uses the leftmost 4 digits of the pin only
+    return f'{rightmost_11}{key_table_index}{pin[:4]}'
 
 
 def calculate_pvv(pin: str, pvv_key: str, key_index: int, card_number: str):
